@@ -115,8 +115,23 @@ pub fn install_panic_hook() {
         } else {
             "<non-string panic>".to_string()
         };
+        if std::thread::current().name() == Some("main") {
+            // a panic of the main thread ends the run (exit 101 = machinery): say where
+            eprintln!("MACHINERY-ERROR harness main thread panicked at {}: {}", loc, msg);
+        }
         LAST_PANIC.with(|p| *p.borrow_mut() = Some((loc, msg)));
     }));
+}
+
+/// the check body itself panicked (outside any sweep): a panic inside the subject is a violation of whatever was being
+/// computed, anything else is a machinery error
+pub fn report_abort(ctx: &Ctx) {
+    let (loc, msg) = take_panic();
+    if location_is_subject(&loc) {
+        ctx.violation("setup", 0, Fail::new(format!("subject panicked at {} while the check prepared its operands: {}", loc, msg)));
+    } else {
+        ctx.machinery(format!("harness panicked at {}: {}", loc, msg));
+    }
 }
 
 fn take_panic() -> (String, String) {
@@ -294,13 +309,165 @@ impl Ctx {
         F: Fn(u64) -> CaseResult + Sync,
         D: Fn(u64) -> Value + Sync,
     {
+        let rad = take_rad(n);
+        let hsub = format!("{}~history", sub);
+        if let Some(code) = self.replay_index(&hsub) {
+            if n > 0 {
+                self.run_history(&hsub, code / n, code % n, n, &describe, &f);
+            }
+            return;
+        }
         if !self.selected(sub) {
             return;
         }
         self.trace(&format!("sweep {} n={}", sub, n));
+        let t_main = Instant::now();
+        let before = self.inner.lock().unwrap().violations.len();
+        self.sweep_main(sub, n, &describe, &f);
+        if self.replay.is_none() && n >= 2 && self.inner.lock().unwrap().violations.len() == before {
+            self.neighbour_histories(sub, &hsub, n, &rad, t_main.elapsed().as_secs_f64(), &describe, &f);
+        }
+    }
+
+    /// Histories of neighbouring cases.  Every case of a sweep is evaluated on whatever worker thread, in no particular order;
+    /// a result that depends on what the same thread computed just before (a memo keyed on part of the operands, a scratch
+    /// buffer left behind) would go unnoticed.  For evenly spaced base cases i and, for every coordinate p of the cross
+    /// product, the neighbour j that differs from i in coordinate p only, the call history i, j, i runs on a fresh thread;
+    /// every evaluation must pass as it did alone.  The number of histories is bounded by a share of the sweep's own cost.
+    fn neighbour_histories<F, D>(&self, sub: &str, hsub: &str, n: u64, rad: &[u64], main_wall: f64, describe: &D, f: &F)
+    where
+        F: Fn(u64) -> CaseResult + Sync,
+        D: Fn(u64) -> Value + Sync,
+    {
+        let per_case_cpu = (main_wall * self.threads as f64 / n as f64).max(2e-5);
+        let budget_cpu = (0.3 * main_wall * self.threads as f64 + 0.05 * self.threads as f64).min(2.0 * self.threads as f64);
+        let max_h = ((budget_cpu / (3.0 * per_case_cpu)) as u64).max(8).min(384);
+        let digits: Vec<usize> = (0..rad.len()).filter(|&p| rad[p] > 1).collect();
+        if max_h == 0 || digits.is_empty() {
+            return;
+        }
+        let nb = (max_h / digits.len() as u64).max(1).min(n);
+        let mut pairs: Vec<(u64, u64)> = vec![];
+        // the first cases of a sweep are the special values of its alphabets (0, 1, -1, 2, -2, O, g, -g, ...): always bases;
+        // then evenly spaced ones
+        let head = nb.min(6);
+        let mut bases: Vec<u64> = (0..head).collect();
+        for k in 0..nb.saturating_sub(head) {
+            bases.push(((k as u128 * n as u128) / (nb - head) as u128) as u64);
+        }
+        for i in bases {
+            let d = unrank(i, rad);
+            for &p in &digits {
+                let mut e = d.clone();
+                e[p] = ((e[p] as u64 + 1) % rad[p]) as usize;
+                let j = rank(&e, rad);
+                if j != i && j < n {
+                    pairs.push((i, j));
+                }
+            }
+        }
+        pairs.sort();
+        pairs.dedup();
+        pairs.truncate(max_h.max(1) as usize);
+        let next = AtomicU64::new(0);
+        let found: Mutex<Vec<(u64, u64, usize, Result<Fail, (String, String)>)>> = Mutex::new(vec![]);
+        std::thread::scope(|s| {
+            for _ in 0..self.threads.min(pairs.len().max(1)) {
+                s.spawn(|| loop {
+                    let k = next.fetch_add(1, Ordering::Relaxed) as usize;
+                    if k >= pairs.len() {
+                        break;
+                    }
+                    let (i, j) = pairs[k];
+                    if let Some((pos, r)) = Self::one_history(i, j, f) {
+                        found.lock().unwrap().push((i, j, pos, r));
+                    }
+                });
+            }
+        });
+        let mut found = found.into_inner().unwrap();
+        found.sort_by_key(|x| (x.0, x.1));
+        self.count("histories_of_neighbouring_cases", 3 * pairs.len() as u64, 3 * pairs.len() as u64, false, Some(json!({"what": "for base cases i of every sweep and each coordinate p, the neighbour j differing in coordinate p only: the calls i, j, i on a fresh thread must pass as they do alone", "first_sweep": sub, "histories_in_that_sweep": pairs.len()})));
+        let mut g = self.inner.lock().unwrap();
+        for (i, j, pos, r) in found.into_iter().take(2) {
+            match r {
+                Ok(fl) => g.violations.push(Violation {
+                    sub: hsub.to_string(),
+                    index: i * n + j,
+                    desc: format!("{}: evaluation #{} of the call history [i, j, i] on one fresh thread fails although each case passes alone: {}", sub, pos + 1, fl.desc),
+                    detail: json!({"case_i": describe(i), "case_j": describe(j), "observed": fl.detail}),
+                }),
+                Err((loc, msg)) => {
+                    if location_is_subject(&loc) {
+                        g.violations.push(Violation {
+                            sub: hsub.to_string(),
+                            index: i * n + j,
+                            desc: format!("{}: evaluation #{} of the call history [i, j, i] on one fresh thread panicked in the subject at {}: {}", sub, pos + 1, loc, msg),
+                            detail: json!({"case_i": describe(i), "case_j": describe(j)}),
+                        });
+                    } else {
+                        g.machinery.push(format!("harness panic in {} history ({}, {}) at {}: {}", sub, i, j, loc, msg));
+                    }
+                }
+            }
+        }
+    }
+
+    /// the history i, j, i on a fresh thread; Some((position, failure)) for the first evaluation that does not pass
+    fn one_history<F>(i: u64, j: u64, f: &F) -> Option<(usize, Result<Fail, (String, String)>)>
+    where
+        F: Fn(u64) -> CaseResult + Sync,
+    {
+        std::thread::scope(|s| {
+            s.spawn(|| {
+                for (pos, &c) in [i, j, i].iter().enumerate() {
+                    let res = panic::catch_unwind(AssertUnwindSafe(|| f(c)));
+                    let _ = take_bump();
+                    match res {
+                        Ok(Ok(_)) => {}
+                        Ok(Err(fl)) => return Some((pos, Ok(fl))),
+                        Err(_) => return Some((pos, Err(take_panic()))),
+                    }
+                }
+                None
+            })
+            .join()
+            .unwrap_or(None)
+        })
+    }
+
+    fn run_history<F, D>(&self, hsub: &str, i: u64, j: u64, n: u64, describe: &D, f: &F)
+    where
+        F: Fn(u64) -> CaseResult + Sync,
+        D: Fn(u64) -> Value + Sync,
+    {
+        let r = Self::one_history(i, j, f);
+        let mut g = self.inner.lock().unwrap();
+        g.order.push(hsub.to_string());
+        let st = g.subs.entry(hsub.to_string()).or_default();
+        st.evaluations += 3;
+        st.samples.push(json!({"case_i": describe(i), "case_j": describe(j)}));
+        match r {
+            None => {}
+            Some((pos, Ok(fl))) => g.violations.push(Violation { sub: hsub.to_string(), index: i * n + j, desc: format!("evaluation #{} of the call history [i, j, i] fails: {}", pos + 1, fl.desc), detail: json!({"case_i": describe(i), "case_j": describe(j), "observed": fl.detail}) }),
+            Some((pos, Err((loc, msg)))) => {
+                if location_is_subject(&loc) {
+                    g.violations.push(Violation { sub: hsub.to_string(), index: i * n + j, desc: format!("evaluation #{} of the call history [i, j, i] panicked in the subject at {}: {}", pos + 1, loc, msg), detail: json!({"case_i": describe(i), "case_j": describe(j)}) });
+                } else {
+                    g.machinery.push(format!("harness panic in {} at {}: {}", hsub, loc, msg));
+                }
+            }
+        }
+    }
+
+    fn sweep_main<F, D>(&self, sub: &str, n: u64, describe: &D, f: &F)
+    where
+        F: Fn(u64) -> CaseResult + Sync,
+        D: Fn(u64) -> Value + Sync,
+    {
         if let Some(i) = self.replay_index(sub) {
             if i < n {
-                self.run_one(sub, i, &describe, &f);
+                self.run_one(sub, i, describe, f);
             } else {
                 self.machinery(format!("replay index {} out of range {} for {}", i, n, sub));
             }
@@ -602,8 +769,27 @@ pub fn unrank(mut i: u64, radices: &[u64]) -> Vec<usize> {
     }
     out
 }
+thread_local! {
+    static LAST_RAD: RefCell<Option<Vec<u64>>> = RefCell::new(None);
+}
+/// size of a cross product; the radices are remembered (per thread) so that the sweep that is about to enumerate this space
+/// knows its factorisation (used for the histories of neighbouring cases)
 pub fn space(radices: &[u64]) -> u64 {
+    LAST_RAD.with(|r| *r.borrow_mut() = Some(radices.to_vec()));
     radices.iter().product()
+}
+fn take_rad(n: u64) -> Vec<u64> {
+    match LAST_RAD.with(|r| r.borrow_mut().take()) {
+        Some(v) if n > 0 && v.iter().product::<u64>() == n => v,
+        _ => vec![n],
+    }
+}
+fn rank(d: &[usize], radices: &[u64]) -> u64 {
+    let mut i = 0u64;
+    for (k, &r) in radices.iter().enumerate().rev() {
+        i = i * r + d[k] as u64;
+    }
+    i
 }
 
 /// Parallel map over 0..n preserving order (for building alphabets with the reference model).
